@@ -7,6 +7,8 @@ from ..impl import vname
 RULE = ('random histories over the autoref alphabet (constructions, connectives via BDD.apply '
         'and Function operators, comparisons, let/quantify/cube, low/high/succ traversals, '
         'drops in random order, collections, reorderings) with dynamic reordering off and on; '
+        'histories with the node limit of the wrapped manager set through the wrapper at tight '
+        'values (RuntimeError of a full table inside operations, comparisons, copies, reorderings); '
         'the harness owns every Function object; a case is one step of one history')
 EXHAUSTIVE = {'quick': False, 'thorough': False}
 ASSUMES = ['CPython frees a Function when its last reference is deleted (the harness holds exactly one reference per handle)',
@@ -14,8 +16,9 @@ ASSUMES = ['CPython frees a Function when its last reference is deleted (the har
 
 
 class AH:
-    def __init__(self, ctx, label, n, reordering):
+    def __init__(self, ctx, label, n, reordering, P='C08'):
         self.ctx = ctx
+        self.P = P          # prefix of the violation keys (the stream is also used by C17)
         self.n = n
         self.A = 'a0'
         self.s = ctx.session(label)
@@ -43,7 +46,7 @@ class AH:
             return None
         got = self.tt_of(h)
         if expect is not None and got != expect:
-            self.ctx.violation('C08:wrong-function', f'{what}: got {got:#x}, expected {expect:#x}', self.case())
+            self.ctx.violation(self.P + ':wrong-function', f'{what}: got {got:#x}, expected {expect:#x}', self.case())
             self.ok = False
         self.live[h] = got
         return h
@@ -56,18 +59,18 @@ class AH:
             ext[abs(f.node)] = ext.get(abs(f.node), 0) + 1
         bad = oracle.check_table(b, external=ext)
         if bad:
-            self.ctx.violation('C08:counts', f'counts vs in-degree + live Functions: {bad[:3]}', self.case())
+            self.ctx.violation(self.P + ':counts', f'counts vs in-degree + live Functions: {bad[:3]}', self.case())
             self.ok = False
             return
         for h, t in self.live.items():
             if h not in H:
                 continue
             if abs(H[h].node) not in b._succ:
-                self.ctx.violation('C08:live-node-freed', f'live Function {h} lost its node', self.case())
+                self.ctx.violation(self.P + ':live-node-freed', f'live Function {h} lost its node', self.case())
                 self.ok = False
                 return
             if self.tt_of(h) != t:
-                self.ctx.violation('C08:live-changed', f'live Function {h} changed its function', self.case())
+                self.ctx.violation(self.P + ':live-changed', f'live Function {h} changed its function', self.case())
                 self.ok = False
                 return
 
@@ -77,7 +80,7 @@ class AH:
             if h in H:
                 got = handle_tt(self.s, self.A, h, self.n)
                 if got != t:
-                    self.ctx.violation('C08:handle-view',
+                    self.ctx.violation(self.P + ':handle-view',
                                        f'{when}: live Function {h} read through its own var/low/high/'
                                        f'negated denotes {got:#x}, expected {t:#x}', self.case())
                     self.ok = False
@@ -160,11 +163,11 @@ class AH:
             r = s.op(A, 'count', a, n)
             e = bin(self.live[a]).count('1')
             if s.ok() and r != e:
-                self.ctx.violation('C08:query', f'count gave {r}, expected {e}', self.case())
+                self.ctx.violation(self.P + ':query', f'count gave {r}, expected {e}', self.case())
                 self.ok = False
             sp = s.op(A, 'support', a)
             if s.ok() and set(sp) != set(T.support(self.live[a], n)):
-                self.ctx.violation('C08:query', f'support gave {sp}', self.case())
+                self.ctx.violation(self.P + ':query', f'support gave {sp}', self.case())
                 self.ok = False
         elif k < 0.5:
             a, c = rng.choice(hs), rng.choice(hs)
@@ -174,7 +177,7 @@ class AH:
             e = {'eq': ta == tc, 'ne': ta != tc, 'le': (ta & ~tc & full) == 0,
                  'lt': (ta & ~tc & full) == 0 and ta != tc}[o]
             if r != e:
-                self.ctx.violation('C08:comparison', f'{o} gave {r}, expected {e}', self.case())
+                self.ctx.violation(self.P + ':comparison', f'{o} gave {r}, expected {e}', self.case())
                 self.ok = False
         elif k < 0.58:
             a = rng.choice(hs)
@@ -205,7 +208,7 @@ class AH:
                 form = rng.choice(['b', 'r', 'n'])
                 h0 = s.op(A, {'b': 'let_bool', 'r': 'let_ref', 'n': 'let_name'}[form], {}, a)
                 if h0 != a:
-                    self.ctx.violation('C08:let-empty', f'let({{}}, u) returned handle {h0}, not u itself ({a})', self.case())
+                    self.ctx.violation(self.P + ':let-empty', f'let({{}}, u) returned handle {h0}, not u itself ({a})', self.case())
                     self.ok = False
                 self.observe()
                 return
@@ -233,7 +236,7 @@ class AH:
                  dict(zip(range(n), rng.sample(range(n), n))))
             self.walk('after reorder')
         if s.last_result() == 'err:needs_reordering':
-            self.ctx.violation('C08:signal', 'the reordering signal reached the caller', self.case())
+            self.ctx.violation(self.P + ':signal', 'the reordering signal reached the caller', self.case())
             self.ok = False
         self.observe()
 
@@ -245,9 +248,9 @@ class AH:
             s.op(A, 'drop', h)
         ok = s.op(A, 'shutdown')
         if ok is not True:
-            self.ctx.violation('C08:shutdown', 'shutdown check failed after all Functions were dropped', self.case())
+            self.ctx.violation(self.P + ':shutdown', 'shutdown check failed after all Functions were dropped', self.case())
         elif len(self.b._succ) != 1:
-            self.ctx.violation('C08:shutdown', f'nodes left after shutdown: {sorted(self.b._succ)}', self.case())
+            self.ctx.violation(self.P + ':shutdown', f'nodes left after shutdown: {sorted(self.b._succ)}', self.case())
 
 
 def reuse(ctx, opA, opB, opC):
@@ -308,6 +311,203 @@ def expr_reuse(ctx, t1, t2, order):
         h.finish()
 
 
+def full_table_autoref(ctx, i, n, reordering, P='C08'):
+    """the node limit of the wrapped manager, set THROUGH dd.autoref (`bdd._bdd.max_nodes = k`
+    on a `dd.autoref.BDD`): model and implementation, state compared after every call.  Some
+    live Functions, then the limit at tight values (the number of nodes, or the largest
+    number, + 0..4) followed by calls of every kind that creates nodes -- apply / ite / let /
+    quantify / `f <= g` / `f < g` / add_expr / a copy from another manager / reorder -- and
+    collections, drops, the limit lifted again; so that `RuntimeError('full ...')` is met in
+    the middle of the wrapped operations, inside the comparison operators (whose temporary
+    `~ self` dies with the frame) and at the pre-check of `swap`.  Oracle after EVERY call:
+    counts exact (in-degree + live Functions), every live Function keeps its function, a
+    failed call creates no Function; around reorderings and after a RuntimeError the live
+    Functions are also read through their own var / low / high / negated."""
+    from ..impl import Spellings
+    rng = ctx.rng
+    h = AH(ctx, f'autoref full table {i} n={n} reordering={reordering}', n, reordering, P=P)
+    s, A = h.s, h.A
+    full = T.full(n)
+    names = [vname(j) for j in range(n)]
+    # another manager (its own variable order) with a few Functions: the sources of copies
+    B = 'a1'
+    ob = list(range(n))
+    rng.shuffle(ob)
+    s.op(B, 'new', {v: ob[v] for v in range(n)})
+    src = {}
+
+    def btt(hh):
+        return oracle.tt_fast(s.impl.amgr[B]._bdd, s.impl.handles[B][hh].node, names)
+
+    bx = [s.op(B, 'var', v) for v in range(n)]
+    for hh in bx:
+        src[hh] = btt(hh)
+    for _ in range(3):
+        r = s.op(B, 'fapply', rng.choice(['and', 'or', 'equiv']), rng.choice(list(src)), rng.choice(list(src)))
+        if r is not None:
+            src[r] = btt(r)
+    # some live Functions
+    for _ in range(rng.randint(6, 12)):
+        h.step()
+        if not h.ok:
+            return
+    reached = set()
+
+    def live():
+        return [x for x in h.live if x in s.impl.handles[A]]
+
+    def after(what):
+        """verdicts after one call of the burst"""
+        res = s.last_result()
+        rt = (not res.startswith('ok:')) and 'RuntimeError' in (getattr(s.impl, 'last_exc', '') or '')
+        ctx.case(('autoref-full', what, n, reordering, rt), True)
+        if rt:
+            reached.add(what)
+            ctx.count('full-table-autoref:reached:' + what)
+        if res == 'err:needs_reordering':
+            ctx.violation(P + ':signal', f'{what}: the reordering signal reached the caller', h.case())
+            h.ok = False
+        h.observe()
+        return rt
+
+    pool = [(['v0', '/\\', 'v1'], T.var(0, n) & T.var(1 % n, n)),
+            (['v0', '\\/', '~', 'v1'], T.var(0, n) | T.neg(T.var(1 % n, n), n)),
+            (['v1', '#', 'v0'], T.var(1 % n, n) ^ T.var(0, n)),
+            (['(', 'v0', '<=>', f'v{n - 1}', ')', '/\\', '~', 'v1'],
+             T.neg(T.var(0, n) ^ T.var(n - 1, n), n) & T.neg(T.var(1 % n, n), n))]
+    for rnd in range(rng.randint(5, 8)):
+        if not h.ok:
+            break
+        b = h.b
+        extra = rng.choice([0, 0, 1, 1, 2, 3, 4])
+        lim = (len(b) + extra) if rng.random() < 0.6 else (max(b._succ) + 1 + extra)
+        s.op(A, 'set_max_nodes', lim)
+        after('set_max_nodes')
+        for _ in range(rng.randint(3, 6)):
+            if not h.ok:
+                break
+            hs = live()
+            if len(hs) < 2:
+                # (the variables exist: no node is needed)
+                h.reg(s.op(A, 'var', rng.randrange(n)))
+                after('var')
+                continue
+            nh = len(s.impl.handles[A])
+            a, c, e_ = (rng.choice(hs) for _ in range(3))
+            ta, tc, te = h.live[a], h.live[c], h.live[e_]
+            what = rng.choice(['apply', 'apply', 'fapply', 'ite', 'let_bool', 'let_ref', 'let_name',
+                               'quantify', 'le', 'le', 'lt', 'lt', 'add_expr', 'copy', 'copy',
+                               'sift', 'reorder', 'gc', 'drop', 'cube', 'var', 'none'])
+            creates = True
+            if what == 'apply':
+                name = rng.choice(['and', 'or', 'xor', 'implies', 'equiv', 'diff'])
+                h.reg(s.op(A, 'apply', rng.choice(gen.ALIASES[name]), a, c, None),
+                      gen.conn(name, ta, tc, full), f'apply {name}')
+            elif what == 'fapply':
+                o = rng.choice(['and', 'or', 'implies', 'equiv'])
+                h.reg(s.op(A, 'fapply', o, a, c), gen.conn(o, ta, tc, full), o)
+            elif what == 'ite':
+                h.reg(s.op(A, 'ite', a, c, e_), T.ite(ta, tc, te, n), 'ite')
+            elif what == 'let_bool':
+                d = {j: rng.random() < 0.5 for j in rng.sample(range(n), rng.randint(1, n))}
+                h.reg(s.op(A, 'let_bool', d, a), T.cofactor(ta, n, d), 'let const')
+            elif what == 'let_ref':
+                d = {j: rng.choice(hs) for j in rng.sample(range(n), rng.randint(1, n))}
+                h.reg(s.op(A, 'let_ref', d, a),
+                      T.vector_compose(ta, n, {j: h.live[x] for j, x in d.items()}), 'let fn')
+            elif what == 'let_name':
+                d = {j: rng.randrange(n) for j in rng.sample(range(n), rng.randint(1, n))}
+                h.reg(s.op(A, 'let_name', d, a), T.rename(ta, n, d), 'let name')
+            elif what == 'quantify':
+                qs = rng.sample(range(n), rng.randint(1, n))
+                fa = rng.random() < 0.5
+                h.reg(s.op(A, 'quantify', a, qs, fa),
+                      T.forall(ta, n, qs) if fa else T.exists(ta, n, qs), 'quantify')
+            elif what in ('le', 'lt'):
+                creates = False
+                r = s.op(A, what, a, c)
+                e = (ta & ~tc & full) == 0 and (what == 'le' or ta != tc)
+                if s.ok() and r != e:
+                    ctx.violation(P + ':comparison', f'{what} gave {r}, expected {e}', h.case())
+                    h.ok = False
+            elif what == 'add_expr':
+                sp, e = rng.choice(pool)
+                h.reg(s.op(A, 'add_expr', Spellings(sp)), e, 'add_expr ' + ' '.join(sp))
+            elif what == 'copy':
+                x = rng.choice(list(src))
+                h.reg(s.op(A, 'copy', int(B[1:]), x), src[x], 'copy from the other manager')
+            elif what == 'cube':
+                d = {j: rng.random() < 0.5 for j in rng.sample(range(n), rng.randint(1, n))}
+                e = full
+                for j, v in d.items():
+                    e &= T.var(j, n) if v else T.neg(T.var(j, n), n)
+                h.reg(s.op(A, 'cube', d), e, 'cube')
+            elif what == 'var':
+                v = rng.randrange(n)
+                h.reg(s.op(A, 'var', v), T.var(v, n), 'var')
+            elif what in ('sift', 'reorder'):
+                creates = False
+                h.walk('before reorder')
+                nh = len(s.impl.handles[A])
+                s.op(A, 'reorder', None if what == 'sift' else
+                     dict(zip(range(n), rng.sample(range(n), n))))
+                rt = after(what)
+                if h.ok:
+                    h.walk('after reorder' + (' (RuntimeError)' if rt else ''))
+                continue
+            elif what == 'gc':
+                creates = False
+                s.op(A, 'gc')
+            elif what == 'drop':
+                creates = False
+                s.op(A, 'drop', a)
+                h.live.pop(a, None)
+                nh -= 1
+            else:
+                creates = False
+                s.op(A, 'set_max_nodes', None)
+            rt = after(what)
+            if not h.ok:
+                break
+            got = len(s.impl.handles[A])
+            if not s.ok() and got != nh:
+                ctx.violation(P + ':failed-call-made-function',
+                              f'{what} failed and the number of live Functions went from {nh} to {got}',
+                              h.case())
+                h.ok = False
+            elif s.ok() and creates and got != nh + 1:
+                ctx.violation(P + ':handles', f'{what} succeeded: {nh} -> {got} live Functions', h.case())
+                h.ok = False
+            if rt and h.ok and rng.random() < 0.5:
+                # the live Functions, read through their own attributes, on the full table
+                h.walk(f'after the RuntimeError of {what}')
+                h.observe()
+    ctx.count('full-table-autoref' + (':reached' if reached else ''))
+    if not h.ok:
+        return
+    # later work: the limit lifted, everything works again
+    s.op(A, 'set_max_nodes', None)
+    hs = live()
+    if len(hs) >= 2:
+        a, c = rng.choice(hs), rng.choice(hs)
+        h.reg(s.op(A, 'fapply', 'and', a, c), h.live[a] & h.live[c], 'after the limit was lifted')
+        if not s.ok():
+            ctx.violation(P + ':later-call', 'a conjunction fails after the limit was lifted', h.case())
+            h.ok = False
+        r = s.op(A, 'le', a, c)
+        if r != ((h.live[a] & ~h.live[c] & full) == 0):
+            ctx.violation(P + ':comparison', f'<= gave {r} after the limit was lifted', h.case())
+            h.ok = False
+        h.observe()
+    for x in list(s.impl.handles[B]):
+        s.op(B, 'drop', x)
+    if s.op(B, 'shutdown') is not True:
+        ctx.violation(P + ':shutdown', 'shutdown check of the source manager failed', h.case())
+    if h.ok:
+        h.finish()
+    ctx.sample(dict(stream=s.label, first_lines=s.lines[:12]))
+
+
 def run(ctx):
     q = ctx.quick
     ops = ['and', 'or', 'implies', 'equiv']
@@ -337,3 +537,6 @@ def run(ctx):
         if h.ok:
             h.finish()
         ctx.sample(dict(stream=h.s.label, first_lines=h.s.lines[:12]))
+    # (last, so that the histories above are the same cases as before for a given seed)
+    for i in range(24 if q else 240):
+        full_table_autoref(ctx, i, ctx.rng.choice([3, 3, 4]), reordering=(i % 3 == 2))
